@@ -28,7 +28,8 @@ RULE = ("(a) exhaustive: YTK, PTK, CIDAR, EcoFlex, Plant registries, every item:
         "built by a drawn sequence of << / add_registry over filesystem members "
         "(overlapping stems carry different sequences), the embedded PTK registry and "
         "nested combined registries, with repeats; model = dict with setdefault "
-        "(first wins, checked by sequence content). Non-trivial = embedded item, a "
+        "(first wins, checked by sequence content); afterwards every member, nested "
+        "combinations included, must still be the mapping it was. Non-trivial = embedded item, a "
         "directory with an ignored entry, or a combination with an overlapping id; "
         "distinct = distinct spec.")
 ASSUMPTIONS = [
@@ -224,6 +225,8 @@ def check(spec, ctx):
     # combined
     from moclo.registry.base import CombinedRegistry
 
+    members = []
+
     def build(node):
         """-> (registry, ordered model)"""
         if node["kind"] == "fs":
@@ -231,10 +234,13 @@ def check(spec, ctx):
             ordered = {}
             for k in list(reg):
                 ordered[k] = model.get(k)
+            members.append((reg, dict(ordered), "filesystem member"))
             return reg, ordered
         if node["kind"] == "embedded":
-            reg = registries.registry(node["reg"])
-            return reg, {k: str(reg[k].record.seq) for k in reg}
+            reg = registries.registry_class(node["reg"])()
+            model = {k: str(reg[k].record.seq) for k in reg}
+            members.append((reg, dict(model), "embedded member %s" % node["reg"]))
+            return reg, model
         comb = CombinedRegistry()
         model = {}
         for child, op in node["members"]:
@@ -247,9 +253,14 @@ def check(spec, ctx):
                 comb.add_registry(r)
             for k, v in m.items():
                 model.setdefault(k, v)
+        members.append((comb, dict(model), "nested combined member"))
         return comb, model
     comb, model = sut(build, spec["tree"])
+    members.pop()
     check_mapping(comb, model, "combined registry")
+    # combining reads its members, it does not change them
+    for reg, m, what in members:
+        check_mapping(reg, m, what + " after being combined")
     # overlap?
     seen, overlap = set(), False
 
